@@ -111,7 +111,8 @@ Definition mask_values (nd : option Z) (nparent : nat) (m : list bool) (v : list
   if Nat.ltb nparent (length v) then compress m v else fillmask nd m v.
 
 (* what a child copy receives *)
-Inductive cmask := CNone | CMask (m : list bool) | CFill (m : list bool).
+(* CCells cm : CellObject.copy(cell_mask=cm) without a vertex mask; CBoth m cm : both keywords given *)
+Inductive cmask := CNone | CMask (m : list bool) | CFill (m : list bool) | CCells (cm : list bool) | CBoth (m cm : list bool).
 
 (* context of one copy call: mask, sizes of the NEW parent (Data.copy reads parent.n_vertices / n_cells) *)
 Record ctx := { cmk : cmask; pnv : option nat; pnc : option nat; with_children : bool; omit_meta : bool;
@@ -153,6 +154,7 @@ Definition masked_payload (cx : ctx) (p : payload) : res payload :=
           end
       | CFill m, Some v =>
           if Nat.eqb (length m) (length v) then Ok (set_payload p (verts p) (cells p) (Some (fillmask (ndv p) m v))) else Ok p
+      | _, _ => Ok p
       end
   | KObject =>
       match cmk cx with
@@ -174,6 +176,25 @@ Definition masked_payload (cx : ctx) (p : payload) : res payload :=
               end
           | GGrid => if Nat.eqb (length m) (ncell p) then Ok p else Err EMaskShape
           end
+      | CCells cm =>
+          (* new_cells = self.cells[cell_mask, :]; every vertex is kept *)
+          match geok p with
+          | GCells | GCurve => Ok (set_payload p (verts p) (compress cm (cells p)) (vals p))
+          | _ => Ok p
+          end
+      | CBoth m cm =>
+          (* the explicit cell mask replaces "all vertices kept": new_cells = new_id[self.cells][cell_mask, :] *)
+          match geok p with
+          | GCells | GCurve =>
+              match verts p with
+              | [] => Ok p
+              | _ => if Nat.eqb (length m) (length (verts p))
+                     then Ok (set_payload p (compress m (verts p))
+                                (map (map (fun v => nth v (new_ids m) 1)) (compress cm (cells p))) (vals p))
+                     else Err EMaskShape
+              end
+          | _ => Ok p
+          end
       | _ => Ok p
       end
   end.
@@ -194,6 +215,16 @@ Definition child_cmask (cx : ctx) (p : payload) (c : payload) : cmask :=
                              | _ => match asc c with AVertex => CMask m | ACell => CMask (cell_mask m (cells p)) | AObject => CNone end
                              end
           | GGrid, KData => CFill m
+          | _, _ => CNone
+          end
+      | CCells cm =>
+          match geok p, knd c with
+          | (GCells | GCurve), KData => match asc c with ACell => CMask cm | _ => CNone end
+          | _, _ => CNone
+          end
+      | CBoth m cm =>
+          match geok p, knd c with
+          | (GCells | GCurve), KData => match asc c with AVertex => CMask m | ACell => CMask cm | AObject => CNone end
           | _, _ => CNone
           end
       | _ => CNone
@@ -338,7 +369,8 @@ Fixpoint insert_child (p : uid) (x : tree) (t : tree) : tree :=
   | T n ch => if N.eqb p (nuid n) then T n (ch ++ [x]) else T n (map (insert_child p x) ch)
   end.
 
-Record opts := { o_children : bool; o_mask : option (list bool); o_omit_meta : bool; o_over : list (Z * Z); o_clear : bool }.
+Record opts := { o_children : bool; o_mask : option (list bool); o_omit_meta : bool; o_over : list (Z * Z); o_clear : bool;
+                 o_cmask : option (list bool) }.
 
 (* ---- clear_cache=True on a Curve: copy_to_parent harvested [parts] (the getter caches it), clear_array_attributes
    then drops the cells cache, and the next read of [cells] rebuilds them from the cached parts (and stores them). *)
@@ -403,7 +435,8 @@ Fixpoint replace_tree (u : uid) (x : tree) (t : tree) : tree :=
   match t with T n ch => if N.eqb u (nuid n) then x else T n (map (replace_tree u x) ch) end.
 
 Definition top_ctx (o : opts) (tp : payload) : ctx :=
-  {| cmk := match o_mask o with Some m => CMask m | None => CNone end;
+  {| cmk := match o_mask o, o_cmask o with
+            | Some m, None => CMask m | Some m, Some cm => CBoth m cm | None, Some cm => CCells cm | None, None => CNone end;
      pnv := nverts_of tp; pnc := ncells_of tp; with_children := o_children o; omit_meta := o_omit_meta o; over := o_over o |}.
 
 (* objects and groups are copied under a group (or the root), data under an object *)
